@@ -189,7 +189,7 @@ func checkC12(c *core.Ctx) {
 
 /* ---------------- C14 ---------------- */
 
-var c14Values = []float64{-700, -20, -1, math.Copysign(0, -1), 0, 1e-9, 1, 20, 700}
+var c14Values = []float64{-700, -300, -100, -40, -20, -1, math.Copysign(0, -1), 0, 1e-9, 1, 20, 40, 700}
 
 func actModel(kind string, m float64, dim int, x *ref.T) *ref.T {
 	switch kind {
